@@ -438,6 +438,12 @@ func TestRegress(t *testing.T) {
 		// integer mean is the floor
 		"s1 s2 SNAP s2 SNAP",
 		"s1 s1 s2 TOTAL",
+		"s1 s2 s2 SNAP",
+		// shrunk sensitivity failures: a longer period must not overwrite the lifetime maximum; stale period min/max
+		"s2 SNAP s1 s1 s1 s1 SNAP TOTAL",
+		"s1 SNAP s2 SNAP",
+		"s5 SNAP s2 SNAP s3 SNAP",
+		"f3 SNAP f1 TOTAL f9 SNAP",
 		// huge values: the sum of a thousand 10^12 still fits
 		strings.Repeat("s1000000000000 ", 1000) + "SNAP " + strings.Repeat("s999999999999 ", 500) + "SNAP TOTAL",
 		"s1000000000000 s1 SNAP s1000000000000 SNAP",
